@@ -327,7 +327,9 @@ class Impl:
             if kind == "none":
                 args = {} if op.get("omit") else {"attrs": None}
             elif kind == "noncoll":
-                args = {"attrs": {"str": "name", "int": 5, "dict": {"name": 1}, "gen": iter(["name"])}[op.get("nc", "str")]}
+                args = {"attrs": {"str": "name", "int": 5, "dict": {"name": 1}, "gen": iter(["name"]), "bytes": b"name",
+                                  "range": range(2), "keys": {"name": 1}.keys(), "genexp": (n for n in ["name"]),
+                                  "deque": __import__("collections").deque(["name"])}[op.get("nc", "str")]}
             else:
                 ctor = {"list": list, "tuple": tuple, "set": set, "frozenset": frozenset}[op.get("ctor", "list")]
                 args = {"attrs": ctor(op["raw"])}
@@ -336,6 +338,13 @@ class Impl:
             except BaseException as e:  # noqa: BLE001
                 if isinstance(e, (KeyboardInterrupt, SystemExit)):
                     raise
+                if isinstance(e, ValueError) and kind == "names":
+                    # the message must name exactly the invalid names (documented: "invalid attr name(s) 'x', 'y'")
+                    import re
+                    named = set(re.findall(r"'([^']*)'", str(e)))
+                    want = set(op["raw"]) - set(self.valid)
+                    if named != want:
+                        return {"kind": "exc", "exc": "ValueError", "message_names": sorted(named), "invalid": sorted(want)}
                 return {"kind": "exc", "exc": type(e).__name__}
             items = []
             for n, v in d.items():
@@ -424,6 +433,32 @@ UNMODELLED_SAMPLE = ["nice", "exe", "cwd", "num_fds", "threads", "open_files", "
                      "net_connections"]
 
 
+NONCOLL = ["str", "int", "dict", "gen", "bytes", "range", "keys", "genexp", "deque"]
+ENUM_UNIVERSE = ["name", "ppid", "nice", "cmdline", "bogus"]      # cached stat / guarded+front-memoised / scripted / zombie-probing / invalid
+
+
+def asdict_enumeration(orders):
+    """as_dict(attrs) for every subset (orders=False) or every ordered arrangement without repetition (orders=True) of a
+    5-name universe × every scripted outcome of the un-modelled name × process state alive / zombie / gone, as one-op
+    histories (plus the state change); + every non-collection argument kind"""
+    subsets = []
+    for k in range(len(ENUM_UNIVERSE) + 1):
+        it = itertools.permutations(ENUM_UNIVERSE, k) if orders else itertools.combinations(ENUM_UNIVERSE, k)
+        subsets += [list(x) for x in it]
+    for raw in subsets:
+        outs = ["ok", "ad", "zombie", "nsp", "notimpl"] if "nice" in raw or not raw else ["ok"]
+        for out in outs:
+            for st in ("alive", "zombie", "gone"):
+                h = [] if st == "alive" else [{"op": "setstate", "st": st}]
+                for ctor in (("list", "set") if not orders and len(raw) == 2 else ("list",)):
+                    yield h + [{"op": "asdict", "kind": "names", "raw": raw, "env": [["nice", out]], "ctor": ctor}]
+    for nc in NONCOLL:
+        yield [{"op": "asdict", "kind": "noncoll", "raw": [], "env": [], "nc": nc}, {"op": "call", "m": "name"}]
+    for out in ["ok", "ad", "zombie", "nsp", "notimpl"]:
+        for omit in (False, True):
+            yield [{"op": "asdict", "kind": "none", "raw": [], "env": [["nice", out], ["exe", "ad"]], "omit": omit}]
+
+
 def gen_asdict(rng, impl, flavour=None):
     flavour = flavour or rng.choice(["names", "names", "names", "none", "empty", "invalid", "noncoll", "policy"])
     env = []
@@ -433,7 +468,7 @@ def gen_asdict(rng, impl, flavour=None):
     if flavour == "none":
         return {"op": "asdict", "kind": "none", "raw": [], "env": env, "omit": rng.random() < 0.5}
     if flavour == "noncoll":
-        return {"op": "asdict", "kind": "noncoll", "raw": [], "env": env, "nc": rng.choice(["str", "int", "dict", "gen"])}
+        return {"op": "asdict", "kind": "noncoll", "raw": [], "env": env, "nc": rng.choice(NONCOLL)}
     ctor = rng.choice(["list", "tuple", "set", "frozenset"])
     if flavour == "empty":
         return {"op": "asdict", "kind": "names", "raw": [], "env": env, "ctor": ctor}
@@ -742,6 +777,11 @@ def correspond(ctx, res):
         for h in exhaustive_histories(maxlen):
             hists.append(h)
             tags.append("exhaustive")
+        n_exh = len(hists) - n_rand
+        for h in asdict_enumeration(orders=(ctx.tier == "thorough")):
+            hists.append(h)
+            tags.append("asdict_enum")
+        n_enum = len(hists) - n_rand - n_exh
         total_lines = 0
         CH = 3000
         for a in range(0, len(hists), CH):
@@ -764,8 +804,12 @@ def correspond(ctx, res):
                 compare(rows, res, tag)
         res.count("probe_opens_total", impl.total_probes + impl.probes)
         res.exhaustive = ("all %d well-nested histories of length <= %d over {enter, exit, exit-by-exception, name(), "
-                          "ppid(), new stat content}; the random families and the schedules are samples"
-                          % (len(hists) - n_rand, maxlen))
+                          "ppid(), new stat content}; as_dict(attrs) for all %d combinations of {every %s of the universe %s} x "
+                          "{scripted outcome ok/AccessDenied/ZombieProcess/NoSuchProcess/NotImplementedError of the un-modelled name} x "
+                          "{alive, zombie, gone}, every non-collection kind %s and attrs=None/omitted; the random families and the "
+                          "schedules are samples"
+                          % (n_exh, maxlen, n_enum, "ordered arrangement" if ctx.tier == "thorough" else "subset",
+                             ENUM_UNIVERSE, NONCOLL))
         res.extra["driver_lines"] = total_lines
     finally:
         impl.close()
